@@ -54,7 +54,9 @@ UsersU    == {"u"}
 \* word, at the end before a blank, twice, directly before a quote (the '=' branch of the SET PASSWORD pattern
 \* must not be taken inside the name)
 UsersEq   == {"u", "\"a=b\"", "\"=\"", "\"ops= team\"", "\"ops='x'\"", "\"a=\\\"b\\\"\"", "\"a= \"", "\"a==b\"",
-              "\"a='\"", "\"= b\"", "\"a= 'x' b\"", "\"a = b = c\""}
+              "\"a='\"", "\"= b\"", "\"a= 'x' b\"", "\"a = b = c\"",
+              \* an escaped quote inside the name, followed (still inside the name) by '=' and something value-like
+              "\"x\\\" = y\"", "\"x\\\"='y'\"", "\"a\\\\\"", "\"\\\" = 'b'\""}
 UsersAll  == {"u", "bob_1", "\"u\"", "\"with password\"", "\"pass'word\"", "\"a b\"", "\"a\\\"b\"",
               "\"password for\"", "\"with password x\"", "\"\""} \cup UsersEq
 UsersSome == {"u", "\"a=b\"", "\"with password\"", "\"pass'word\""}
